@@ -204,6 +204,7 @@ struct Sim<'a> {
     sent_packets: Vec<ibc_types::core::channel::Packet>,
     /// multi-action transactions accepted by some CheckTx and not (yet) executed successfully
     pending_bundles: BTreeSet<[u8; 32]>,
+    cur_block_op: u32,
 }
 
 fn vote_flag(f: u8) -> BlockSignatureInfo {
@@ -319,6 +320,7 @@ impl<'a> Sim<'a> {
             paths_seen: BTreeSet::new(),
             sent_packets: Vec::new(),
             pending_bundles: BTreeSet::new(),
+            cur_block_op: 0,
         };
         super::ibc_stub::enable(true);
         sim.prev_totals = sim.totals(&ledger);
@@ -355,6 +357,7 @@ impl<'a> Sim<'a> {
 
     fn finish(mut self) -> Outcome {
         self.stats.probe_n("tx.bundle.failed-after-first-action", self.pending_bundles.len() as u64);
+        self.stats.probe_n("withdrawal.honoured", self.model.withdrawals_honoured);
         self.mark_nontrivial();
         self.stats.steps = self.step;
         self.stats.sim_ms = self.height * 2000;
@@ -396,10 +399,13 @@ impl<'a> Sim<'a> {
         if p(st, "tx.bundle.failed-after-first-action") > 0 || p(st, "tx.replay-attempt") > 0 {
             marks.push("C03");
         }
+        if p(st, "served.block-with>=2-rollups") > 0 && p(st, "served.block-with-deposits") > 0 {
+            marks.push("C07");
+        }
         if (p(st, "ibc.recv.refused") > 0 && p(st, "ibc.recv.applied") > 0) || p(st, "ibc.packet-sent") > 0 {
             marks.push("C18");
         }
-        if p(st, "deposit.emitted") > 0 && p(st, "withdrawal.id-reuse-attempt") > 0 {
+        if p(st, "deposit.emitted") > 0 && (p(st, "withdrawal.id-reuse-attempt") > 0 || p(st, "withdrawal.honoured") > 0) {
             marks.push("C04");
         }
         if p(st, "block.distinct-paths>=3") > 0 || (p(st, "block.distinct-paths>=2") > 0 && self.nodes.len() == 2) {
@@ -906,6 +912,7 @@ impl<'a> Sim<'a> {
             return;
         }
         let h = self.height + 1;
+        self.cur_block_op = b.id;
         let n_nodes = self.nodes.len();
         for n in self.nodes.iter_mut() {
             n.path.clear();
@@ -1325,12 +1332,255 @@ impl<'a> Sim<'a> {
         self.check_deposits(h, prop, witness, resp).await;
         self.check_validator_updates(h, resp, witness).await;
         self.check_prices(h, &parsed, resp);
+        self.check_served(h, &parsed, resp, injected, witness, self.cur_block_op).await;
         self.ledger = real;
         // the model follows the real chain after a reported divergence so that one defect is
         // reported once, not at every later block
         self.model.balances = self.ledger.balances.clone();
         self.model.nonces = self.ledger.nonces.clone();
         kinds.into_iter().collect::<Vec<_>>().join(",")
+    }
+
+    /// C07 (producer third): what the node stores and serves for a decided block - full block,
+    /// block filtered to arbitrary subsets of rollups, and the form split for Celestia - must be,
+    /// per rollup, exactly the payloads of its data submissions in block order followed by its
+    /// deposits in execution order, with proofs that verify; single-element tamperings of the served
+    /// data must fail verification in the client-side decoders.
+    async fn check_served(&mut self, h: u64, parsed: &ExpandedBlockData, resp: &abci::response::FinalizeBlock, injected: usize, witness: usize, op_id: u32) {
+        use std::sync::Arc;
+
+        use astria_core::{
+            generated::astria::sequencerblock::v1::{
+                sequencer_service_server::SequencerService as _,
+                GetFilteredSequencerBlockRequest,
+                GetSequencerBlockRequest,
+            },
+            primitive::v1::RollupId,
+            sequencerblock::v1::{
+                block::{
+                    FilteredSequencerBlock,
+                    RollupData,
+                },
+                SequencerBlock,
+                SubmittedMetadata,
+                SubmittedRollupData,
+            },
+        };
+        let step = self.step;
+        // ---- expectation, from the block's successful transactions and the reference deposits --
+        let mut expected: BTreeMap<[u8; 32], Vec<Vec<u8>>> = BTreeMap::new();
+        for (i, raw) in parsed.user_submitted_transactions.iter().enumerate() {
+            if !resp.tx_results[injected + i].code.is_ok() {
+                continue;
+            }
+            let Ok(tx) = decode_tx(raw) else { continue };
+            for a in tx.actions() {
+                if let Action::RollupDataSubmission(r) = a {
+                    expected
+                        .entry(*r.rollup_id.as_bytes())
+                        .or_default()
+                        .push(RollupData::SequencedData(r.data.clone()).into_raw().encode_to_vec());
+                }
+            }
+        }
+        for d in &self.model.block_deposits {
+            expected
+                .entry(*d.rollup_id.as_bytes())
+                .or_default()
+                .push(RollupData::Deposit(Box::new(d.clone())).into_raw().encode_to_vec());
+        }
+        if self.model.unmodelled.contains("ibc") {
+            return;
+        }
+        let n_rollups = expected.len();
+        if n_rollups >= 2 {
+            self.stats.probe("served.block-with>=2-rollups");
+        }
+        if !self.model.block_deposits.is_empty() && n_rollups >= 1 {
+            self.stats.probe("served.block-with-deposits");
+        }
+        let node = &self.nodes[witness];
+        let server = Arc::new(crate::grpc::sequencer::SequencerServer::new(
+            node.storage.clone(),
+            node.mempool.clone(),
+            astria_core::upgrades::test_utils::UpgradesBuilder::new().set_aspen(self.cfg.aspen).set_blackburn(self.cfg.blackburn).build(),
+        ));
+        let lists_of = |txs: &indexmap::IndexMap<RollupId, astria_core::sequencerblock::v1::block::RollupTransactions>| -> BTreeMap<[u8; 32], Vec<Vec<u8>>> {
+            txs.iter().map(|(id, rt)| (*id.as_bytes(), rt.transactions().iter().map(|b| b.to_vec()).collect())).collect()
+        };
+        let describe = |m: &BTreeMap<[u8; 32], Vec<Vec<u8>>>| -> String { m.iter().map(|(k, v)| format!("{}:{}items/{}B", hex::encode(&k[..2]), v.len(), v.iter().map(Vec::len).sum::<usize>())).collect::<Vec<_>>().join(",") };
+
+        // ---- (i) the full block as served --------------------------------------------------------
+        let full_raw = match server.clone().get_sequencer_block(tonic::Request::new(GetSequencerBlockRequest { height: h })).await {
+            Ok(r) => r.into_inner(),
+            Err(e) => {
+                self.viol.push("C07", "served-block-unavailable", "get_sequencer_block", step, format!("h={h}: GetSequencerBlock failed for a committed block: {e}"));
+                return;
+            }
+        };
+        let full = match SequencerBlock::try_from_raw(full_raw.clone()) {
+            Ok(b) => b,
+            Err(e) => {
+                self.viol.push("C07", "served-block-does-not-verify", "full", step, format!("h={h}: the served SequencerBlock does not pass client-side verification: {e}"));
+                return;
+            }
+        };
+        // every accompanying proof must verify against the commitment in the header
+        for (id, rt) in full.rollup_transactions() {
+            let ok = rt
+                .proof()
+                .audit()
+                .with_root(*full.header().rollup_transactions_root())
+                .with_leaf_builder()
+                .write(id.as_ref())
+                .write(&merkle::Tree::from_leaves(rt.transactions()).root())
+                .finish_leaf()
+                .perform();
+            if !ok {
+                self.viol.push("C07", "served-proof-does-not-verify", "full-per-rollup-proof", step, format!("h={h}: the proof served for rollup {} does not verify against the header's rollup transactions root", hex::encode(&id.as_bytes()[..2])));
+            }
+        }
+        let got = lists_of(full.rollup_transactions());
+        if got != expected {
+            self.viol.push("C07", "rollup-data-differs-from-block", "full", step, format!("h={h}: served per-rollup data [{}] differs from submissions-then-deposits of the block [{}]", describe(&got), describe(&expected)));
+        }
+        // ---- (ii) filtered to subsets -------------------------------------------------------------
+        let mut rng = Rng::new(self.cfg.seed ^ 0xC07).fork(u64::from(op_id));
+        let all_ids: Vec<[u8; 32]> = (0..N_ROLLUPS + 1).map(|i| *world::rollup_id(i).as_bytes()).collect();
+        for _ in 0..3 {
+            let mut subset: Vec<[u8; 32]> = all_ids.iter().copied().filter(|_| rng.chance(1, 2)).collect();
+            if rng.chance(1, 4) {
+                if let Some(first) = subset.first().copied() {
+                    subset.push(first); // duplicate id in the request
+                }
+            }
+            let req = GetFilteredSequencerBlockRequest { height: h, rollup_ids: subset.iter().map(|id| RollupId::new(*id).into_raw()).collect() };
+            let raw = match server.clone().get_filtered_sequencer_block(tonic::Request::new(req)).await {
+                Ok(r) => r.into_inner(),
+                Err(e) => {
+                    self.viol.push("C07", "served-block-unavailable", "get_filtered_sequencer_block", step, format!("h={h}: GetFilteredSequencerBlock failed: {e}"));
+                    continue;
+                }
+            };
+            match FilteredSequencerBlock::try_from_raw(raw.clone()) {
+                Err(e) => self.viol.push("C07", "served-block-does-not-verify", "filtered", step, format!("h={h}: filtered block for {} ids does not verify: {e}", subset.len())),
+                Ok(fb) => {
+                    let got = lists_of(fb.rollup_transactions());
+                    let want: BTreeMap<[u8; 32], Vec<Vec<u8>>> = expected.iter().filter(|(k, _)| subset.contains(*k)).map(|(k, v)| (*k, v.clone())).collect();
+                    if got != want {
+                        self.viol.push("C07", "rollup-data-differs-from-block", "filtered", step, format!("h={h}: filtered block has [{}], expected [{}]", describe(&got), describe(&want)));
+                    }
+                    let ids: BTreeSet<[u8; 32]> = fb.all_rollup_ids().iter().map(|i| *i.as_bytes()).collect();
+                    let want_ids: BTreeSet<[u8; 32]> = expected.keys().copied().collect();
+                    if ids != want_ids {
+                        self.viol.push("C07", "rollup-id-list-differs", "filtered", step, format!("h={h}: all_rollup_ids has {} ids, the block has data for {}", ids.len(), want_ids.len()));
+                    }
+                }
+            }
+            // tampering with the filtered form must be detected (skipped when the request named an
+            // id twice: the response then carries two entries of which the decoder keeps the last)
+            let entry_ids: BTreeSet<Vec<u8>> = raw.rollup_transactions.iter().filter_map(|r| r.rollup_id.as_ref().map(|i| i.inner.to_vec())).collect();
+            if !raw.rollup_transactions.is_empty() && entry_ids.len() == raw.rollup_transactions.len() {
+                let mut t = raw.clone();
+                let k = rng.below_usize(t.rollup_transactions.len());
+                let class = match rng.below(5) {
+                    4 if t.rollup_transactions.len() >= 2 => {
+                        let k2 = (k + 1) % t.rollup_transactions.len();
+                        let p = t.rollup_transactions[k].proof.clone();
+                        t.rollup_transactions[k].proof = t.rollup_transactions[k2].proof.clone();
+                        t.rollup_transactions[k2].proof = p;
+                        if t == raw { "noop" } else { "swap-proofs" }
+                    }
+                    0 if !t.rollup_transactions[k].transactions.is_empty() => {
+                        let j = rng.below_usize(t.rollup_transactions[k].transactions.len());
+                        let mut b = t.rollup_transactions[k].transactions[j].to_vec();
+                        if b.is_empty() { b.push(1) } else { let l = b.len() - 1; b[l] ^= 1 }
+                        t.rollup_transactions[k].transactions[j] = b.into();
+                        "alter"
+                    }
+                    1 if !t.rollup_transactions[k].transactions.is_empty() => {
+                        t.rollup_transactions[k].transactions.pop();
+                        "truncate"
+                    }
+                    2 => {
+                        t.rollup_transactions[k].transactions.push(Bytes::from_static(b"\x0a\x01x"));
+                        "extend"
+                    }
+                    _ => {
+                        let other = RollupId::new([0xee; 32]);
+                        t.rollup_transactions[k].rollup_id = Some(other.into_raw());
+                        "reattribute"
+                    }
+                };
+                self.stats.fault(&format!("served.tamper.filtered.{class}"));
+                if class != "noop" && FilteredSequencerBlock::try_from_raw(t).is_ok() {
+                    self.viol.push("C07", "tampered-data-verifies", &format!("filtered-{class}"), step, format!("h={h}: a filtered block whose rollup data was tampered with ({class}) still passes client-side verification"));
+                }
+            }
+        }
+        // ---- tampering with the full form -----------------------------------------------------------
+        if !full_raw.rollup_transactions.is_empty() {
+            let mut t = full_raw.clone();
+            let k = rng.below_usize(t.rollup_transactions.len());
+            let class = match rng.below(5) {
+                0 if t.rollup_transactions[k].transactions.len() >= 2 && t.rollup_transactions[k].transactions[0] != t.rollup_transactions[k].transactions[1] => {
+                    t.rollup_transactions[k].transactions.swap(0, 1);
+                    "reorder"
+                }
+                1 if !t.rollup_transactions[k].transactions.is_empty() => {
+                    t.rollup_transactions[k].transactions.remove(0);
+                    "truncate"
+                }
+                2 => {
+                    t.rollup_transactions[k].transactions.push(Bytes::from_static(b"\x0a\x01x"));
+                    "extend"
+                }
+                3 => {
+                    let mut hh = t.block_hash.to_vec();
+                    hh[0] ^= 1;
+                    t.block_hash = hh.into();
+                    "other-block-hash"
+                }
+                _ => {
+                    t.rollup_transactions.remove(k);
+                    "drop-rollup"
+                }
+            };
+            if class != "noop" {
+                self.stats.fault(&format!("served.tamper.full.{class}"));
+                // attributing the block to another hash is not detectable from the block alone (the
+                // hash is checked against the commit by the receiver, see C09)
+                if class != "other-block-hash" && SequencerBlock::try_from_raw(t).is_ok() {
+                    self.viol.push("C07", "tampered-data-verifies", &format!("full-{class}"), step, format!("h={h}: a full block whose rollup data was tampered with ({class}) still passes client-side verification"));
+                }
+            }
+        }
+        // ---- (iii) split for Celestia ------------------------------------------------------------------
+        let (meta, blobs) = full.split_for_celestia();
+        let meta_raw = meta.into_raw();
+        match SubmittedMetadata::try_from_raw(meta_raw) {
+            Err(e) => self.viol.push("C07", "celestia-form-does-not-verify", "metadata", step, format!("h={h}: SubmittedMetadata produced by split_for_celestia does not verify: {e}")),
+            Ok(m) => {
+                let ids: BTreeSet<[u8; 32]> = m.rollup_ids().map(|i| *i.as_bytes()).collect();
+                let want_ids: BTreeSet<[u8; 32]> = expected.keys().copied().collect();
+                if ids != want_ids {
+                    self.viol.push("C07", "rollup-id-list-differs", "celestia-metadata", step, format!("h={h}: metadata lists {} rollup ids, the block has data for {}", ids.len(), want_ids.len()));
+                }
+            }
+        }
+        let mut got: BTreeMap<[u8; 32], Vec<Vec<u8>>> = BTreeMap::new();
+        for b in blobs {
+            match SubmittedRollupData::try_from_raw(b.into_raw()) {
+                Err(e) => self.viol.push("C07", "celestia-form-does-not-verify", "rollup-data", step, format!("h={h}: SubmittedRollupData does not decode: {e}")),
+                Ok(b) => {
+                    got.insert(*b.rollup_id().as_bytes(), b.transactions().iter().map(|t| t.to_vec()).collect());
+                }
+            }
+        }
+        if got != expected {
+            self.viol.push("C07", "rollup-data-differs-from-block", "celestia-split", step, format!("h={h}: split_for_celestia yields [{}], expected [{}]", describe(&got), describe(&expected)));
+        }
+        self.stats.probe("served.checked");
     }
 
     fn observe_ibc_events(&mut self, h: u64, tx_id: &[u8; 32], result: &abci::types::ExecTxResult) {
